@@ -8,7 +8,7 @@ package mr
 // close of `output` => a recorded cancel error wins, else the reducer's value, else ErrReduceNoOutput.
 //@ func mapReduceWithPanicChan
 //@   prop C07
-//@   opaque buildOptions, newGuardedWriter, drain, once, Load
+//@   opaque buildOptions, newGuardedWriter, drain, once, Load, Set
 //@   let out = ret("recv-output", 0)
 //@   ensures [cancelled-wins] calls(Load) == 1 && ret(Load) != nil ==> result1 == ret(Load) && result0 == nil
 //@   ensures [value-or-no-output] calls(Load) == 1 && ret(Load) == nil ==> (result1 == nil || result1 == ErrReduceNoOutput) && (result1 == ErrReduceNoOutput ==> result0 == nil)
@@ -18,6 +18,9 @@ package mr
 //@   let gotOk = ret(on("recv", local(output)), 1)
 //@   ensures [delivered-value-returned-even-if-nil] calls(Load) == 1 && ret(Load) == nil && gotOk ==> result1 == nil && result0 == got
 //@   ensures [closed-without-value-is-no-output] calls(Load) == 1 && ret(Load) == nil && !gotOk ==> result1 == ErrReduceNoOutput && result0 == nil
+// the error of the run is recorded in ONE place, the once-guarded cancel (first cancel wins; the error cell refuses
+// a second store of another error type with a panic): the driver itself never writes it
+//@   ensures [error-recorded-only-through-cancel] calls(Set) == 0
 //@   ensures [deadline] calls(Load) == 0 ==> result1 == context.DeadlineExceeded && result0 == nil && calls(cancel, context.DeadlineExceeded) == 1
 // a panic handed over by the generator / a mapper / the reducer is re-raised only after `output` has been drained:
 // otherwise the reducer's (single, legitimate) result would be met by the write-twice guard of the deferred
